@@ -27,6 +27,64 @@ def fn_label(n):
     return (f'{cls.name}.' if cls is not None else '') + (fn.name if fn is not None else '<module>')
 
 
+def check_nested_from_step(ctx):
+    """`SELECT ... FROM (sub-select)`: the step the outer query is evaluated over is the step the FROM sub-select was planned into - whatever else the outer query makes
+    the planner add (sub-selects of its own targets / conditions).  plan_mdb_nested_select interpreted on an outer query with sub-selects in targets and WHERE."""
+    from ..interp import Interp, Obj, Raised, Env
+    from .C08 import traverse, ident, binop, ISA
+    QP = 'mindsdb_sql/planner/query_planner.py'
+    cls = class_named(ctx.src.tree(QP), 'QueryPlanner')
+    fn = function_named(cls, 'plan_mdb_nested_select') if cls is not None else None
+    ctx.need(fn is not None, 'QueryPlanner.plan_mdb_nested_select not found')
+    n = 0
+    for label, with_t, with_w in (('plain outer query', False, False), ('sub-select in the outer WHERE', False, True), ('sub-select in the outer targets', True, False),
+                                  ('sub-selects in outer targets and WHERE', True, True)):
+        def sub(tag):
+            return Obj('Select', targets=[ident('b')], from_table=ident(f'int2.{tag}'), where=None, alias=None, parentheses=True, cte=None, _tag=tag)
+        inner = Obj('Select', targets=[Obj('Star')], from_table=ident('int1.t'), where=None, alias=ident('x'), parentheses=True, cte=None, _tag='from')
+        outer = Obj('Select', targets=[ident('x.a')] + ([sub('target')] if with_t else []), from_table=inner,
+                    where=binop('in', ident('x.a'), sub('where')) if with_w else binop('=', ident('x.a'), Obj('Constant', value=1, alias=None)), alias=None,
+                    parentheses=False, cte=None, group_by=None, having=None, order_by=None, limit=None, offset=None, distinct=False, using=None, mode=None)
+        plan = Obj('QueryPlan', steps=[])
+        self_ = Obj('QueryPlanner', plan=plan, default_namespace='mindsdb')
+        seen = {}
+
+        def plan_select(it, node, *a, **k):
+            st = Obj('Step', result=Obj('Result'), _of=node.attrs.get('_tag'))
+            plan.steps.append(st)
+            return st
+
+        def nested_fnc(it, *a, **k):
+            def cb(node, **kw):
+                if isinstance(node, Obj) and node.kind == 'Select':
+                    st = plan_select(it, node)
+                    return Obj('Parameter', value=st.result, alias=None)
+                return None
+            return cb
+
+        def sub_select(it, q, step, *a, **k):
+            seen['step'] = step
+            return step
+        stubs = {'self.plan_select': plan_select, 'self.get_nested_selects_plan_fnc': nested_fnc, 'self.plan_sub_select': sub_select,
+                 'copy.deepcopy': lambda it, x: x.clone() if isinstance(x, Obj) else x, 'query_traversal': lambda it, node, cb, *a, **k: traverse(it, node, cb),
+                 'utils.query_traversal': lambda it, node, cb, *a, **k: traverse(it, node, cb)}
+        it = Interp.for_file(ctx.src, QP, dict(ISA), stubs)
+        try:
+            it.call_function(fn, [self_, outer], {}, Env())
+        except Raised as r:
+            ctx.ob('C09.nested-from-step', label, r.exc_name in ALLOWED_EXC, f'plan_mdb_nested_select raises {r.exc_name} on {label}', file=QP, line=fn.lineno)
+            continue
+        n += 1
+        st = seen.get('step')
+        of = st.attrs.get('_of') if isinstance(st, Obj) else None
+        ctx.ob('C09.nested-from-step', label, of == 'from',
+               f'[{label}] the outer query of `FROM (sub-select)` is evaluated over the step planned for {("the sub-select in the outer " + of) if of else repr(st)}, expected '
+               f'the step of the FROM sub-select: the rows of another sub-select are taken for the table', file=QP, line=fn.lineno,
+               witness='select * from (select * from int1.t) x where x.a in (select b from int2.t2)')
+    ctx.setcount('nested_from_rows', n)
+    ctx.floor('nested_from_rows', 4)
+
+
 def run(ctx):
     ctx.explanation = (
         'Who-may rules, exhaustive over all planner modules: (1) Result(...) is constructed only in PlanStep.result, which '
@@ -464,6 +522,7 @@ def run(ctx):
     ctx.floor('passthrough_call_sites', 3)
     ctx.sample({'functions_returning_the_current_step': sorted(ret_cur)[:40], 'passthrough': {k: sorted(v) for k, v in passthrough.items()}})
     # (6c) "planning never fails with an internal error", one decidable part: the model planner only receives selects FROM a model (C10's route table)
+    check_nested_from_step(ctx)
     from .C10 import select_route_table
     for label, ok, msg, line in select_route_table(ctx):
         ctx.ob('C09.exceptions', f'plan_select_identifier:{label}', ok, msg, file='mindsdb_sql/planner/query_planner.py', line=line,
